@@ -105,7 +105,7 @@ def _bad_adder(top, bads):
     return bad
 
 
-def reader_bench(name, fifo_depth=2, buffered=False, aw=5, dw=8, bit=None):
+def reader_bench(name, fifo_depth=2, buffered=False, aw=5, dw=8, bit=None, free_enable=False):
     from litedram.frontend.dma import LiteDRAMDMAReader
     port = LiteDRAMNativePort("read", aw, dw)
 
@@ -122,6 +122,10 @@ def reader_bench(name, fifo_depth=2, buffered=False, aw=5, dw=8, bit=None):
     other = Signal(dw, name_override="stub_rdata_other")
     inputs = {"sink_valid": dut.sink.valid, "sink_address": dut.sink.address, "sink_last": dut.sink.last,
               "source_ready": dut.source.ready, "stub_cmd_stall": stall, "stub_resp_go": go, "stub_rdata_other": other}
+    if free_enable:
+        # the reader's enable input (1 after reset; the CSR front-end drives it) toggles freely: a disabled reader flushes its
+        # FIFO on purpose, so only the no-overrun clause is asked in this variant
+        inputs["enable"] = dut.enable
     sacc = Signal()
     beat = Signal()
     cacc = Signal()
@@ -392,6 +396,7 @@ CONFIGS = {
     "reader_d1_buffered": (reader_bench, dict(fifo_depth=1, buffered=True), 14, 24, "qt"),
     "reader_d1": (reader_bench, dict(fifo_depth=1), 0, 24, "t"),
     "writer_d1_buffered": (writer_bench, dict(fifo_depth=1, buffered=True), 0, 24, "t"),
+    "enabletoggle_reader_d2": (reader_bench, dict(fifo_depth=2, free_enable=True), 18, 28, "qt"),
     "reader_d4_bit0": (reader_bench, dict(fifo_depth=4, bit=0), 17, 30, "qt"),
     "reader_d4_bit7": (reader_bench, dict(fifo_depth=4, bit=7), 0, 30, "t"),
     "reader_d4_buffered_bit3": (reader_bench, dict(fifo_depth=4, buffered=True, bit=3), 17, 30, "qt"),
@@ -415,10 +420,15 @@ def run(ctx):
     ctx.assume("stream producers hold valid/payload until accepted; source.ready, stub stalls and response delays (>= 2 cycles) free")
     ctx.assume("native-port stub: in order, <= 3 commands queued; one item (chosen by the solver) is followed by queue position; "
                "its data carry a 1 at a symbolic bit position, all other data bits are free (data independence: the DMA only moves words)")
+    ctx.assume("'enabletoggle_*' bench: the reader's enable input is free every cycle; only the no-overrun clause is asked there")
     ctx.assume("axi_* benches: LiteDRAMAXIPort with real AR/R and AW/W/B handshakes (R and W wait for ready; R payload held by the "
                "slave); single-beat full-width accesses are required of the DMA.  The CSR front-ends add_csr() are not covered")
     for n, (fn, kw, kq, kt, tiers) in CONFIGS.items():
         if ctx.only and not ctx.only.search(n):
+            continue
+        if n.startswith("enabletoggle"):
+            ctx.add(n, kq if ctx.tier == "quick" else kt, timeout=900, cover_required=False,
+                    bads=["read_data_returned_while_dma_cannot_take_it(overrun)"])
             continue
         if ctx.tier == "quick" and "q" in tiers:
             ctx.add(n, kq, timeout=900)
